@@ -2529,6 +2529,10 @@ func (t *Topic) replyGetSub(sess *Session, asUid types.Uid, authLevel auth.Level
 				var opt []string
 				if req, opt, err = parseSearchQuery(query, sess.countryCode, rewriteLogin); err == nil {
 					if len(req) > 0 || len(opt) > 0 {
+						if err = t.refreshUserTags(asUid); err != nil {
+							sess.queueOut(decodeStoreErrorExplicitTs(err, id, msg.Original, now, incomingReqTs, nil))
+							return err
+						}
 						// Check if the query contains terms that the user is not allowed to use.
 						allReq := types.FlattenDoubleSlice(req)
 						restr, _, _ := stringSliceDelta(t.tags, filterRestrictedTags(append(allReq, opt...),
@@ -2867,6 +2871,24 @@ func (t *Topic) replyGetData(sess *Session, asUid types.Uid, asChan bool, req *M
 }
 
 // replyGetTags returns topic's tags - tokens used for discovery.
+// refreshUserTags reloads the cached tags of the user who owns this 'me' or 'fnd' topic: the tags are also
+// changed outside of the topic (login update, credentials validated at login or through {acc}, tags set on 'me'
+// are not seen by 'fnd'), the cached copy may be stale. Does nothing for other topic categories.
+func (t *Topic) refreshUserTags(uid types.Uid) error {
+	if t.cat != types.TopicCatMe && t.cat != types.TopicCatFnd {
+		return nil
+	}
+	user, err := store.Users.Get(uid)
+	if err != nil {
+		return err
+	}
+	if user == nil {
+		return types.ErrUserNotFound
+	}
+	t.tags = user.Tags
+	return nil
+}
+
 func (t *Topic) replyGetTags(sess *Session, asUid types.Uid, msg *ClientComMessage) error {
 	now := types.TimeNow()
 
@@ -2877,6 +2899,11 @@ func (t *Topic) replyGetTags(sess *Session, asUid types.Uid, msg *ClientComMessa
 	if t.cat == types.TopicCatGrp && t.owner != asUid {
 		sess.queueOut(ErrPermissionDeniedReply(msg, now))
 		return errors.New("request for tags from non-owner")
+	}
+
+	if err := t.refreshUserTags(asUid); err != nil {
+		sess.queueOut(decodeStoreErrorExplicitTs(err, msg.Id, msg.Original, now, msg.Timestamp, nil))
+		return err
 	}
 
 	if len(t.tags) > 0 {
@@ -2911,6 +2938,9 @@ func (t *Topic) replySetTags(sess *Session, asUid types.Uid, msg *ClientComMessa
 	} else if t.cat == types.TopicCatGrp && t.owner != asUid {
 		resp = ErrPermissionDeniedReply(msg, now)
 		err = errors.New("tags update by non-owner")
+
+	} else if err = t.refreshUserTags(asUid); err != nil {
+		resp = decodeStoreErrorExplicitTs(err, msg.Id, msg.Original, now, msg.Timestamp, nil)
 
 	} else if tags := normalizeTags(set.Tags); tags != nil {
 		if !restrictedTagsEqual(t.tags, tags, globals.immutableTagNS) {
